@@ -5,7 +5,7 @@
 From Coq Require Import List Arith Bool Relations.
 From PV Require Import Typegraph.Graph Typegraph.Solver Typegraph.Spec Typegraph.SetLemmas
   Typegraph.RfgProofs Typegraph.PathProofs Typegraph.SearchProofs Typegraph.SolverProofs
-  Typegraph.ExactProofs.
+  Typegraph.ResolveMono Typegraph.ExactProofs Typegraph.WalkProofs Typegraph.FuelProofs.
 Import ListNotations.
 
 (* ---- building blocks ---------------------------------------------------------------------- *)
@@ -46,17 +46,44 @@ Theorem find_node_backwards_sound : forall g start finish blocked ex path,
 Proof. exact fnb_compute_spec. Qed.
 Print Assumptions find_node_backwards_sound.
 
+(* ---- termination / fuel ------------------------------------------------------------------ *)
+
+(* remove_finished_goals terminates on every position and goal set of every graph *)
+Theorem remove_finished_goals_terminates : forall g pos goals, ssorted goals = true ->
+  exists n results, forall fuel, remove_finished_goals (n + fuel) g pos goals = Some results.
+Proof. exact rfg_terminates. Qed.
+Print Assumptions remove_finished_goals_terminates.
+
+(* FindNodeBackwards always returns on every graph: the worklist loops stay within the fuel the
+   model gives them (number of edges), the shortest path is a simple path, and the `while (true)`
+   loop over articulation points always finds a next node (no nullptr dereference) *)
+Theorem find_node_backwards_total : forall g start finish blocked,
+  find_node_backwards_compute g start finish blocked <> None.
+Proof. exact fnb_compute_total. Qed.
+Print Assumptions find_node_backwards_total.
+
+(* fuel sufficiency: on an acyclic graph every sequence of queries is answered (never None) for
+   every sufficiently large fuel - the `= Some` hypotheses of the theorems below are satisfiable *)
+Theorem solve_fuel_sufficient_acyclic : forall g qs, acyclic g ->
+  exists F, forall fuel, F <= fuel -> run_queries fuel g sstate_empty qs <> None.
+Proof. exact run_queries_total_lemma. Qed.
+Print Assumptions solve_fuel_sufficient_acyclic.
+
 (* ---- clause (i): exactness on acyclic condition-free graphs ------------------------------- *)
 
-(* FULL STATEMENT (DESIGN thm 1):
-     acyclic g -> no_conditions g -> solve fuel g st S n = Some b -> (b = true <-> Expl g n S).
-   Proved below: (a) the memoised search proper (RecallOrFindSolution from a fresh solver, any goal
-   set) is exact; (b) Solve, for any sequence of queries sharing one solver: every `true` is
-   explained, and every `false` is either unexplained or a CanHaveSolution short-circuit justified by
-   ONE goal of the set that is unexplained on its own.  What is missing for the full statement is
-   only monotonicity of Expl in the goal set (Expl g n S -> b in S -> Expl g n [b]), which would
-   turn the second disjunct into the first; it is checked by the harness oracle (clause i compares
-   HasCombination with Expl directly) but not proved here - hence `_partial`. *)
+(* DESIGN thm 1, full strength: on every acyclic graph without node conditions, for ANY sequence of
+   queries answered by one solver (memo and path cache shared), every HasCombination answer is true
+   exactly when the goal set has an explaining path.  (The memoised search is exact because the
+   position strictly decreases in a topological rank, so provisional entries are never consulted; the
+   CanHaveSolution short-circuit never changes an answer because Expl is monotone in the goal set.) *)
+Theorem solver_exact_acyclic : forall g fuel qs st' answers,
+  acyclic g -> no_conditions g = true ->
+  run_queries fuel g sstate_empty qs = Some (st', answers) ->
+  Forall2 (fun q a => a = true <-> Expl g (snd q) (sof_list (fst q))) qs answers.
+Proof. exact solver_exact_acyclic_lemma. Qed.
+Print Assumptions solver_exact_acyclic.
+
+(* the search proper (RecallOrFindSolution from a fresh solver) on an arbitrary state *)
 Theorem search_exact_acyclic : forall g fuel s st' r,
   acyclic g -> no_conditions g = true -> ssorted (snd s) = true ->
   recall_or_find fuel fuel g sstate_empty s [] = Some (st', r) ->
@@ -64,15 +91,11 @@ Theorem search_exact_acyclic : forall g fuel s st' r,
 Proof. exact search_exact_acyclic_lemma. Qed.
 Print Assumptions search_exact_acyclic.
 
-Theorem solver_exact_acyclic_partial : forall g fuel qs st' answers,
-  acyclic g -> no_conditions g = true ->
-  run_queries fuel g sstate_empty qs = Some (st', answers) ->
-  Forall2 (fun q a =>
-    (a = true -> Expl g (snd q) (sof_list (fst q))) /\
-    (a = false -> ~ Expl g (snd q) (sof_list (fst q)) \/
-                  (1 < length (fst q) /\ exists b, In b (fst q) /\ ~ Expl g (snd q) [b]))) qs answers.
-Proof. exact solver_exact_acyclic_partial_lemma. Qed.
-Print Assumptions solver_exact_acyclic_partial.
+(* the explanation relation is monotone: a subset of an explained goal set is explained *)
+Theorem explained_subset_closed : forall g n S,
+  Expl g n S -> forall S', ssorted S' = true -> (forall b, In b S' -> In b S) -> Expl g n S'.
+Proof. exact Expl_mono. Qed.
+Print Assumptions explained_subset_closed.
 
 (* ---- clause (iii): accepted => every goal individually reachable -------------------------- *)
 
@@ -94,11 +117,49 @@ Theorem accepted_individually_reachable_refuted :
 Proof. exact accepted_reachable_refuted_lemma. Qed.
 Print Assumptions accepted_individually_reachable_refuted.
 
-(* ---- clauses (ii) and (iv) ----------------------------------------------------------------- *)
-(* (ii) solver_complete_with_conditions : acyclic g -> Expl_c g n S -> solve g n S = Some true, and
-   (iv) accepted_subset_closed : solve g n S = Some true -> incl S' S -> solve g n S' = Some true
-   are NOT proved; both are decided on every run by the independent oracle on the implementation's
-   answers (harness/props/c07_oracle.py), exhaustively on the small scopes of the thorough tier. *)
+(* ---- clause (iv): every subset of an accepted combination is accepted ----------------------- *)
+
+(* FULL STATEMENT (DESIGN thm 4, accepted_subset_closed_full): on EVERY graph,
+     solve g n S = Some true -> incl S' S -> solve g n S' = Some true.
+   Proved on acyclic condition-free graphs, for queries asked in any order within one solver
+   session.  On graphs with cycles or conditions the statement is neither proved nor refuted here
+   (no counterexample in the exhaustive scopes of the thorough tier); it is decided on every run by
+   the independent oracle on the implementation's answers. *)
+Theorem accepted_subset_closed_partial : forall g fuel qs st' answers,
+  acyclic g -> no_conditions g = true ->
+  run_queries fuel g sstate_empty qs = Some (st', answers) ->
+  forall q1 q2 a2,
+    In (q1, true) (combine qs answers) -> In (q2, a2) (combine qs answers) ->
+    snd q1 = snd q2 -> incl (fst q2) (fst q1) -> a2 = true.
+Proof. exact accepted_subset_closed_acyclic_lemma. Qed.
+Print Assumptions accepted_subset_closed_partial.
+
+(* ---- clause (ii): with conditions, never reject a combination that has an explaining path ---- *)
+
+(* FULL STATEMENT (DESIGN thm 2, solver_complete_with_conditions):
+     acyclic g -> ExplC g n S -> solve g n S = Some true
+   where ExplC is the strict reading (every condition on the walk is required).  The faithful
+   model REFUTES it, and the witness reproduces on cfg.so (corpus/C07, known finding
+   ii:rejected-but-explained:acyclic+cond): FindNodeBackwards takes node 1 of [refute_ii] for a
+   conditional articulation point between nodes 5 and 0 although the condition-free walk 5,3,2,0
+   avoids it.  Proved: the clause holds when the graph has no conditions, where the walk reading
+   ExplC (the reading the Python oracle implements) and the jump reading Expl coincide. *)
+Theorem solver_complete_with_conditions_refuted :
+  exists g fuel n S, wf_graph g = true /\ acyclic g /\ ExplC g n S /\ solve_fresh fuel g S n = Some false.
+Proof. exact complete_with_conditions_refuted_lemma. Qed.
+Print Assumptions solver_complete_with_conditions_refuted.
+
+Theorem solver_complete_with_conditions_partial : forall g fuel qs st' answers,
+  acyclic g -> no_conditions g = true ->
+  run_queries fuel g sstate_empty qs = Some (st', answers) ->
+  Forall2 (fun q a => ExplC g (snd q) (sof_list (fst q)) -> a = true) qs answers.
+Proof. exact complete_nocond_lemma. Qed.
+Print Assumptions solver_complete_with_conditions_partial.
+
+Theorem walk_and_jump_readings_agree : forall g, no_conditions g = true ->
+  forall n S, Expl g n S <-> ExplC g n S.
+Proof. exact Expl_iff_ExplC. Qed.
+Print Assumptions walk_and_jump_readings_agree.
 
 (* ---- non-vacuity --------------------------------------------------------------------------- *)
 Ltac rank_id := apply topo_ids_acyclic; reflexivity.
@@ -155,11 +216,21 @@ Proof.
   - intros He. eapply H1 in He; [| exact Ha | exact Hn | reflexivity | vm_compute; reflexivity]. discriminate.
 Qed.
 
+(* subset closure applied to a session on the diamond: [0;2] is accepted at node 3, so are [0] and [2] *)
+Example diamond_subsets :
+  option_map snd (run_queries 100 diamond sstate_empty [([0; 2], 3); ([0], 3); ([2], 3)])
+  = Some [true; true; true].
+Proof. vm_compute. reflexivity. Qed.
+
 (* an origin without any source set (not constructible from Python, reachable from C++) is a dead
    end of remove_finished_goals: the goal is neither explained nor kept *)
 Example origin_without_source_set :
   remove_finished_goals 100 (mkGraph [mkNode [] None] [mkBinding 0 [mkOrigin 0 []]]) 0 [0] = Some [].
 Proof. vm_compute. reflexivity. Qed.
+
+(* the clause (ii) witness is acyclic and has a condition *)
+Example refute_ii_class : acyclicb refute_ii = true /\ no_conditions refute_ii = false.
+Proof. vm_compute. split; reflexivity. Qed.
 
 (* the refutation witness is cyclic and conditional, as the partial theorem demands *)
 Example refute_iii_class : acyclicb refute_iii = false /\ no_conditions refute_iii = false.
